@@ -46,6 +46,10 @@ for pid, text, tech in [
      "property-based testing: renderer-known ground truth for positions + fault injection (Hypothesis)"),
     ("C09", "Complete enumeration of annotated entry x versions around each bound x parent chain x root schema with an independent deep pruner + Draft-4 evaluation as the oracle, and a Hypothesis rule-based state machine over one Validator object and the module API compared with fresh Validators.",
      "exhaustive enumeration with a reference pruner oracle + Hypothesis stateful machine (history independence)"),
+    ("C13", DOC + "oracle: metamorphic - the four include_position x include_comments combinations through loads / load / open give the plain dictionary once hidden keys are removed; position-only dictionaries print byte-identically; dictionaries with comments print the same event stream once the independent reader drops comments.",
+     "property-based testing: metamorphic relation over bookkeeping flags and entry points (Hypothesis)"),
+    ("C14", "Generated-input search: Hypothesis-drawn documents written one keyword per line with unique comments at claimed and unclaimed placements, and corpus files with their own comments (independent scanner cross-checked against the lexer callback); oracle: multiset verbatim/no-duplication check with backtracking, content equality with the comment-free pipeline, placement predicates on a comment-blanked copy of the output.",
+     "property-based testing: independent comment scanner, multiset and placement oracles (Hypothesis)"),
     ("C16", DOC + "oracle: an independent reader of the printed text checks the layout contract line by line.",
      "property-based testing: independent reader / validity predicate over documents x option sets (Hypothesis)"),
     ("C17", "Exhaustive breadth-first exploration of every reachable state over a small key/value alphabet with every operation applied in every state, exhaustive operation sequences from the empty dict up to a length bound, and a Hypothesis rule-based state machine for long histories; oracle: reference model (OrderedDict keyed by lower-cased keys + default rule).",
